@@ -104,6 +104,12 @@ func OracleC05(c *Case, obs *RunObs) *Failure {
 			return &Failure{fmt.Sprintf("call %d: %s (%s) while the uninterrupted run ends with %s", j, s.Class, s.Err, obs.Ref.Class), "resume-" + s.Class}
 		}
 	}
+	// resuming is a function of the stored bytes: the last call, made once more, does what it did
+	if rp := obs.Repeat; rp != nil {
+		if f := repeatable(c, obs.Segs[len(obs.Segs)-1], rp); f != nil {
+			return f
+		}
+	}
 	ref := obs.Ref
 	if ref.Class != "done" && ref.Class != "fail" {
 		return nil // step limit (restarts on resume: documented caveat), panic/hang of the reference: not comparable
@@ -146,6 +152,44 @@ func OracleC05(c *Case, obs *RunObs) *Failure {
 			}
 			if lvl.State.String() != m.State.String() {
 				return &Failure{fmt.Sprintf("call %d path %q: restored state %s differs from the state reported at the interrupt %s", j, m.Path, m.State, lvl.State), "state-roundtrip"}
+			}
+		}
+	}
+	// a resumed call that carries a state modifier hands it the restored state of every graph the preceding
+	// interrupt reported a state for, each exactly once and under the path of that graph
+	for j, s := range obs.Segs {
+		if j == 0 || !s.Call.Mod || !s.WithID || s.Class == "panic" || s.Class == "hang" {
+			continue
+		}
+		prev := obs.Segs[j-1]
+		if prev.Class != "interrupt" || !prev.Stored || prev.Sets != 1 {
+			continue
+		}
+		want, got := map[string]int{}, map[string]int{}
+		var walk func(i *InfoObs, path string)
+		walk = func(i *InfoObs, path string) {
+			if i == nil {
+				return
+			}
+			if i.State != nil {
+				want[path]++
+			}
+			for _, sub := range i.Subs {
+				walk(sub.Info, subPath(path, sub.ID))
+			}
+		}
+		walk(prev.Info, "")
+		for _, m := range s.Mods {
+			got[m.Path]++
+		}
+		for p, n := range want {
+			if got[p] != n {
+				return &Failure{fmt.Sprintf("call %d: the state modifier was called %d time(s) for path %q, the preceding interrupt reported a state there (calls by path: %v)", j, got[p], p, got), "modifier-paths"}
+			}
+		}
+		for p, n := range got {
+			if want[p] != n {
+				return &Failure{fmt.Sprintf("call %d: the state modifier was called %d time(s) for path %q, expected %d (calls by path: %v)", j, n, p, want[p], got), "modifier-paths"}
 			}
 		}
 	}
@@ -258,6 +302,50 @@ func OracleC05(c *Case, obs *RunObs) *Failure {
 	return nil
 }
 
+// repeatable: [last] ended without writing a checkpoint, [rp] is the same call (same id, same options) made once
+// more: it resumes from the same stored bytes and must end the same way, with the same output, the same
+// executions (node, input, what it saw of the shared state) and the same state pre-handler runs.
+func repeatable(c *Case, last, rp *SegObs) *Failure {
+	if rp.Class != last.Class {
+		return &Failure{fmt.Sprintf("the last call ended with %s without writing a checkpoint; the same call made once more (same id, same stored bytes) ends with %s (%s)", last.Class, rp.Class, rp.Err), "resume-not-repeatable"}
+	}
+	if rp.Sets != 0 {
+		return &Failure{fmt.Sprintf("the repeated last call (%s) wrote %d checkpoint(s)", rp.Class, rp.Sets), "resume-not-repeatable"}
+	}
+	if last.Class != "done" {
+		return nil // a failing run stops wherever the failure surfaces (eager: scheduling); only the class is comparable
+	}
+	if last.Out.String() != rp.Out.String() {
+		return &Failure{fmt.Sprintf("resumed twice from the same stored checkpoint: output %s the first time, %s the second", last.Out, rp.Out), "resume-not-repeatable"}
+	}
+	a, b := multiset(last.Execs, true), multiset(rp.Execs, true)
+	for k, n := range a {
+		if b[k] != n {
+			return &Failure{fmt.Sprintf("resumed twice from the same stored checkpoint: execution %s happens %d time(s) the first time, %d the second", k, n, b[k]), "resume-not-repeatable"}
+		}
+	}
+	for k, n := range b {
+		if a[k] != n {
+			return &Failure{fmt.Sprintf("resumed twice from the same stored checkpoint: execution %s happens %d time(s) the first time, %d the second", k, a[k], n), "resume-not-repeatable"}
+		}
+	}
+	pa, pb := map[int]int{}, map[int]int{}
+	for _, ev := range last.Events {
+		if ev.Kind == "pre" {
+			pa[ev.ID]++
+		}
+	}
+	for _, ev := range rp.Events {
+		if ev.Kind == "pre" {
+			pb[ev.ID]++
+		}
+	}
+	if fmt.Sprint(pa) != fmt.Sprint(pb) {
+		return &Failure{fmt.Sprintf("resumed twice from the same stored checkpoint: state pre-handler runs %v the first time, %v the second", pa, pb), "resume-not-repeatable"}
+	}
+	return nil
+}
+
 func hasEager(c *Case) bool {
 	for _, g := range c.Graphs {
 		if g.Mode == "wf" {
@@ -331,7 +419,7 @@ func oracleC06(c *Case, obs *RunObs) *Failure {
 	}
 	// ... and, where nothing depends on goroutine scheduling (no Workflow in the forest), call by call what
 	// the first run showed: the compiled graph keeps nothing of a run
-	if hasEager(c) {
+	if hasEager(c) || c.SetFailAt > 0 {
 		return nil
 	}
 	sum := func(s *SegObs) string {
